@@ -226,6 +226,9 @@ def expected_result(kind, specs):
             return f"ack({code},{idx},{hexs(name)},{hexs('boom')})[{'/'.join(shown)}]"
         if name == "bin":
             frames.append(f"()bin={hexs(payload(int(args[0])))}")
+        elif name == "kv":
+            pairs = [f"{hexs(args[i])}:{hexs(args[i + 1])}" for i in range(0, len(args) - 1, 2)]
+            frames.append("(" + ",".join(pairs) + ")bin=~")
         elif name in ("update", "rescan"):
             frames.append(f"({hexs('updating_db')}:{hexs(args[0] if args else '1')})bin=~")
         elif name == "stop":
@@ -235,6 +238,25 @@ def expected_result(kind, specs):
     if kind == "c":
         frames = frames[:1]
     return "ok[" + "/".join(frames) + "]"
+
+
+KEY_FAMILIES = [["AlbumArtistSort", "AlbumArtist", "Album", "Al"], ["songid", "song", "so"], ["Time", "time", "TIME", "tIME"],
+                ["playlistlength", "playlist"], ["Last-Modified", "last-modified", "Last-modified"], ["duration", "Duration"], ["x", "X", "xx", "xX"]]
+
+
+def kv_spec(rng, tagtext):
+    """A request whose reply has 1..6 fields with keys from one or two families of similar words (other letter cases, prefixes of the
+    key before): everything a connection remembers about field NAMES from one reply to the next must not show."""
+    fam = rng.choice(KEY_FAMILIES)
+    keys = [rng.choice(fam) for _ in range(rng.choice([1, 2, 3, 6]))]
+    if rng.random() < 0.5:
+        keys = sorted(keys, key=len, reverse=True)       # a prefix right after the longer word
+    if rng.random() < 0.3:
+        keys += [rng.choice(rng.choice(KEY_FAMILIES))]
+    args = []
+    for i, k in enumerate(keys):
+        args += [k, f"{tagtext}v{i}"]
+    return spec("kv", *args)
 
 
 def gen_request(rng, rid, allow_fail=True, allow_bin=True):
@@ -248,6 +270,8 @@ def gen_request(rng, rid, allow_fail=True, allow_bin=True):
             specs.append(spec(rng.choice(["fail", "fail", "pfail"]), str(rng.choice([1, 2, 5, 50])), f"r{rid}c{k}"))
         elif allow_bin and r < 0.22:
             specs.append(spec("bin", str(rng.choice([0, 1, 3, 20, 5000])), f"r{rid}c{k}"))
+        elif r < 0.40:
+            specs.append(kv_spec(rng, f"r{rid}c{k}"))
         else:
             specs.append(spec("echo", f"r{rid}", f"c{k}"))
     return f"{kind}{rid}:" + ",".join(specs), kind, specs
@@ -354,6 +378,8 @@ def gen_fragment_session(rng, n_steps, tricky=True, cancels=False):
                 sp = spec("fail", str(rng.choice([1, 2, 5, 50])), f"r{rid}")          # an ACK reply
             elif r2 < 0.24:
                 sp = spec("bin", str(rng.choice([0, 1, 3, 20, 300])), f"r{rid}")     # a binary reply
+            elif r2 < 0.40:
+                sp = kv_spec(rng, f"r{rid}")                                          # replies whose keys vary (letter case, prefixes)
             elif r2 < 0.75:
                 sp = spec(rng.choice(words), *[rng.choice(args) for _ in range(rng.choice([0, 0, 1, 2]))])
             else:
